@@ -3,6 +3,7 @@ package scen
 import (
 	"encoding/json"
 	"fmt"
+	"strings"
 
 	"simlal/sim/media"
 
@@ -99,6 +100,17 @@ func checkC02TsRtsp(k *sim.Kernel, rr *RelayRun) {
 				}
 				k.Probe("c02_ts_starts_judged")
 				k.Probe("nontrivial")
+			}
+			// the cached GOPs replayed to an HTTP-TS joiner and the live frames that follow are one run of the published
+			// frames, nothing twice (with a per-GOP frame cap the replay is legitimately non-contiguous)
+			if rr.Plan.Conf.TsGopCap == 0 && len(tc.Problems) == 0 {
+				prob, nv, na := CompareTsToPublished(tc, pub.Units, hevc, pub.Plan.AacSr, false)
+				if prob != "" && !strings.HasPrefix(prob, "BELOW-FIRST") {
+					k.Violate("C02.replay", "%s: replay + live in the TS stream: %s", name, prob)
+				}
+				if nv+na > 0 {
+					k.Probe("c02_ts_replay_checked")
+				}
 			}
 		case c.Rtsp != nil && len(c.Rtsp.Rtp) > 0:
 			if !c.Rtsp.DescribeOK || c.Rtsp.SdpRecv == "" {
